@@ -8,6 +8,7 @@ import (
 	"math"
 	"os"
 	"sort"
+	"strconv"
 	"strings"
 	"sync"
 
@@ -1076,6 +1077,44 @@ func (x *Exec) checkAsserts(st *State, b *ssa.BasicBlock, ins ssa.Instruction) {
 				}
 				first = ret
 			}
+			if first != nil && strings.Contains(as.C.Text, "$arg") {
+				// an assertion about the arguments of a call ($arg0, $arg1, ...: for a static method
+				// call $arg0 is the receiver) is proved just before that call. Of several calls on the
+				// line the one whose name occurs rightmost in the anchor text is meant, else the first.
+				_, line := fx.eng.srcLineFull(first.Pos())
+				var pick ssa.Instruction
+				best := -1
+				for _, bb := range fx.fn.Blocks {
+					for _, in := range bb.Instrs {
+						ci, ok := in.(ssa.CallInstruction)
+						if !ok {
+							continue
+						}
+						if _, isB := ci.Common().Value.(*ssa.Builtin); isB {
+							continue
+						}
+						if _, l2 := fx.eng.srcLineFull(in.Pos()); l2 != line {
+							continue
+						}
+						nm := ""
+						if ci.Common().IsInvoke() {
+							nm = ci.Common().Method.Name()
+						} else if f := ci.Common().StaticCallee(); f != nil {
+							nm = f.Name()
+						}
+						at := -1
+						if nm != "" {
+							at = strings.LastIndex(as.At, nm+"(")
+						}
+						if pick == nil || at > best {
+							if pick == nil || at >= 0 {
+								pick, best = in, at
+							}
+						}
+					}
+				}
+				first = pick
+			}
 			if first != nil {
 				fx.assertAnchor[first] = append(fx.assertAnchor[first], as)
 			} else {
@@ -1109,6 +1148,14 @@ func (x *Exec) checkAsserts(st *State, b *ssa.BasicBlock, ins ssa.Instruction) {
 			if name == "$ret" {
 				if r, ok := ins.(*ssa.Return); ok && len(r.Results) >= 1 {
 					return x.get(st, r.Results[0]), true
+				}
+				return Value{}, false
+			}
+			if strings.HasPrefix(name, "$arg") {
+				if ci, ok := ins.(ssa.CallInstruction); ok {
+					if k, err := strconv.Atoi(name[4:]); err == nil && k >= 0 && k < len(ci.Common().Args) {
+						return x.get(st, ci.Common().Args[k]), true
+					}
 				}
 				return Value{}, false
 			}
